@@ -85,44 +85,59 @@ def handler(p):
     import multiprocessing
     scratch = os.environ['SCMO_SCRATCH']
     sink = io.StringIO()
-    out = {'libs': [], 'jobs': [], 'filters': [], 'merges': [], 'regions': []}
+    out = {'libs': [], 'histories': [], 'jobs': [], 'filters': [], 'merges': [], 'regions': []}
     real_mp = B.multiprocessing
     fake_mp = SimpleNamespace(Pool=FakePool)
 
-    # ---- full pipeline
+    def run_one(path, run):
+        try:
+            key_tags = ['DA'] if run['key_tags'] else None
+            kwargs = {'ignore_mp': run['ignore_mp']} if run['ignore_mp'] is not None else {}
+            with contextlib.redirect_stdout(sink):
+                cmds = list(B.generate_commands(path, bin_size=run['b'], bins_per_job=run['k'],
+                                                max_fragment_size=run['mfs'], min_mq=run['min_mq'],
+                                                key_tags=key_tags, dedup=run['dedup'], kwargs=kwargs))
+                if run.get('sched') is not None:
+                    FakePool.order = run['sched']
+                    B.multiprocessing = fake_mp
+                try:
+                    counts = B.obtain_counts(cmds, reference=None, live_update=False, threads=run['threads'])
+                finally:
+                    B.multiprocessing = real_mp
+                    FakePool.order = None
+            return {'cells': canon(counts, key_tags), 'jobs': [[c[3], c[4], c[5]] for c in cmds]}
+        except BaseException as e:
+            return err(e)
+
+    # ---- full pipeline (one fresh path per library)
     for n, lib in enumerate(p.get('libs', [])):
         path = os.path.join(scratch, 'l%d.bam' % n)
-        runs = []
         try:
             make_bam(path, lib['contigs'], lib['reads'])
         except BaseException as e:
             out['libs'].append({'error': err(e)['error']})
             continue
-        for run in lib['runs']:
-            try:
-                key_tags = ['DA'] if run['key_tags'] else None
-                kwargs = {'ignore_mp': run['ignore_mp']} if run['ignore_mp'] is not None else {}
-                with contextlib.redirect_stdout(sink):
-                    cmds = list(B.generate_commands(path, bin_size=run['b'], bins_per_job=run['k'],
-                                                    max_fragment_size=run['mfs'], min_mq=run['min_mq'],
-                                                    key_tags=key_tags, dedup=run['dedup'], kwargs=kwargs))
-                    if run.get('sched') is not None:
-                        FakePool.order = run['sched']
-                        B.multiprocessing = fake_mp
-                    try:
-                        counts = B.obtain_counts(cmds, reference=None, live_update=False, threads=run['threads'])
-                    finally:
-                        B.multiprocessing = real_mp
-                        FakePool.order = None
-                runs.append({'cells': canon(counts, key_tags), 'jobs': [[c[3], c[4], c[5]] for c in cmds]})
-            except BaseException as e:
-                runs.append(err(e))
-        out['libs'].append({'runs': runs})
+        out['libs'].append({'runs': [run_one(path, run) for run in lib['runs']]})
         for ext in ('', '.bai'):
             try:
                 os.remove(path + ext)
             except OSError:
                 pass
+
+    # ---- histories: ONE path per history, rewritten (BAM + index) between steps with other contig lengths / contig
+    #      sets, and counted repeatedly in this one process; every count must describe the BAM as it is at that moment
+    out['histories'] = []
+    for n, hist in enumerate(p.get('histories', [])):
+        path = os.path.join(scratch, 'h%d.bam' % n)
+        steps = []
+        for step in hist:
+            try:
+                if step.get('rewrite', True):
+                    make_bam(path, step['contigs'], step['reads'])
+                steps.append({'runs': [run_one(path, run) for run in step['runs']]})
+            except BaseException as e:
+                steps.append({'error': err(e)['error']})
+        out['histories'].append(steps)
 
     # ---- generate_commands alone (contig sizes injected; the BAM header path is covered above)
     real_gcs = B.get_contig_sizes
